@@ -54,8 +54,23 @@ type stCase struct {
 
 var stiffLong = false
 
+func stInterp(x float64, xs, ys []float64) float64 {
+	if x <= xs[0] {
+		return ys[0]
+	}
+	for j := 1; j < len(xs); j++ {
+		if x <= xs[j] {
+			return ys[j-1] + (x-xs[j-1])/(xs[j]-xs[j-1])*(ys[j]-ys[j-1])
+		}
+	}
+	return ys[len(ys)-1]
+}
+
 func genStorageCase(r *rand.Rand, T int) *stCase {
 	c := &stCase{n: 2 + r.Intn(4), dt: []float64{86400, 86400, 3600}[r.Intn(3)]}
+	if r.Intn(5) == 0 {
+		c.n = 9 + r.Intn(6) // long tables (9..14 points)
+	}
 	n := c.n
 	c.levels, c.volumes, c.areas, c.minRel, c.maxRel = make([]float64, n), make([]float64, n), make([]float64, n), make([]float64, n), make([]float64, n)
 	lv, vol, ar := 100.0, 0.0, r.Float64()*5e4
@@ -79,7 +94,15 @@ func genStorageCase(r *rand.Rand, T int) *stCase {
 		c.levels[k], c.volumes[k], c.areas[k], c.minRel[k], c.maxRel[k] = lv, vol, ar, mn, mx
 	}
 	full := c.volumes[n-1]
-	c.style = []string{"fill", "drawdown", "mixed", "quiet", "weir", "surcharged"}[r.Intn(6)]
+	c.style = []string{"fill", "drawdown", "mixed", "quiet", "weir", "surcharged", "idle"}[r.Intn(7)]
+	if c.style == "idle" {
+		// nothing changes: no surface (no rain / evaporation exchange) and a demand that equals the inflow and lies
+		// between the release curves, or an empty storage with nothing coming in -- the volume at the end IS the
+		// volume at the start, and level and area must still be reported as the table says
+		for k := range c.areas {
+			c.areas[k] = 0
+		}
+	}
 	if stiffLong {
 		// a linear reservoir (coinciding release curves proportional to the volume) that is stiff at the daily timestep:
 		// one to two thousand sub-timesteps per day, for hundreds of days in ONE call
@@ -107,6 +130,17 @@ func genStorageCase(r *rand.Rand, T int) *stCase {
 	}
 	if c.style == "stiff-long" {
 		c.v0 = 0
+	}
+	idleQ := 0.0
+	if c.style == "idle" {
+		if r.Intn(3) == 0 {
+			c.v0 = 0
+			if c.minRel[0] > 0 {
+				c.v0 = c.volumes[n-1] * 0.5
+			}
+		}
+		lo, hi := stInterp(c.v0, c.volumes, c.minRel), stInterp(c.v0, c.volumes, c.maxRel)
+		idleQ = lo + (hi-lo)*r.Float64()
 	}
 	c.rain, c.pet, c.inflow, c.demand = make([]float64, T), make([]float64, T), make([]float64, T), make([]float64, T)
 	c.tminVol, c.tminCap = make([]float64, T), make([]float64, T)
@@ -137,6 +171,8 @@ func genStorageCase(r *rand.Rand, T int) *stCase {
 			c.demand[t] = r.Float64() * 5
 			c.rain[t] = r.ExpFloat64() * 5 * perDay
 			c.pet[t] = r.Float64() * 4 * perDay
+		case "idle":
+			c.inflow[t], c.demand[t] = idleQ, idleQ
 		case "stiff-long":
 			c.inflow[t] = []float64{10, 30}[(t/3)%2] * (0.5 + r.Float64())
 		case "quiet":
